@@ -507,13 +507,22 @@ impl ProcfsHandle {
         subpath: P,
         oflags: F,
     ) -> Result<File, Error> {
-        let mut oflags = oflags.into();
+        self.open_inner(base, subpath.as_ref(), oflags.into(), true)
+    }
+
+    fn open_inner(
+        &self,
+        base: ProcfsBase,
+        subpath: &Path,
+        oflags: OpenFlags,
+        retry_unmasked: bool,
+    ) -> Result<File, Error> {
+        let mut oflags = oflags;
         // Force-set O_NOFOLLOW.
         oflags.insert(OpenFlags::O_NOFOLLOW);
 
         // Do a basic lookup.
         let basedir = self.open_base(base)?;
-        let subpath = subpath.as_ref();
         let fd = self
             .resolver
             .resolve(&basedir, subpath, oflags, ResolverFlags::empty())
@@ -522,14 +531,23 @@ impl ProcfsHandle {
                 Ok(fd)
             })
             .or_else(|err| {
-                if self.is_subset && err.kind() == ErrorKind::OsError(Some(libc::ENOENT)) {
+                if retry_unmasked
+                    && self.is_subset
+                    && err.kind() == ErrorKind::OsError(Some(libc::ENOENT))
+                {
                     // If the lookup failed due to ENOENT, and the current
                     // procfs handle is "masked" in some way, try to create a
                     // temporary unmasked handle and retry the operation.
+                    //
+                    // The retry is done exactly once: if we cannot get an
+                    // unmasked procfs (an unprivileged process on a hidepid=
+                    // mount only ever gets the same masked /proc again) the
+                    // temporary handle must not start creating handles of its
+                    // own, or a lookup of a non-existent path never ends.
                     Self::new_unmasked()
                         // Use the old error if creating a new handle failed.
                         .or(Err(err))?
-                        .open(base, subpath, oflags)
+                        .open_inner(base, subpath, oflags, false)
                         .map(OwnedFd::from)
                 } else {
                     Err(err)
